@@ -173,10 +173,165 @@ def _dead_by_refuted_guard(prog, site) -> Optional[str]:
     return None
 
 
+def dominating_atoms(fn: Fn, node):
+    """[(atom, negated)]: comparisons / tests known to hold whenever *node* is evaluated -- conjuncts of tests left through
+    their TRUE edge and (negated) disjuncts of tests left through their FALSE edge, for every test whose that outcome
+    dominates the node in the CFG.  Nested `if`, early `return` / `continue` guard clauses and merged / split conditions all
+    give the same atoms.  Local aliases are expanded (reaching definitions)."""
+    from ..cfg import cfg_of
+    from ..dataflow import cfg_node_of, expand_aliases
+    from ..facts import disjuncts
+    g = cfg_of(fn)
+    at = cfg_node_of(g, node)
+    out = []
+    if at is None:
+        return out
+    for t in g.nodes:
+        if t.kind != "test" or t.id == at:
+            continue
+        for lab in ("T", "F"):
+            if not any(l_ == lab for _, l_ in g.succ[t.id]):
+                continue
+            reach = g.reachable(g.entry, follow_exc=False, edge_filter=lambda a, b, l_, _t=t.id, _lab=lab: not (a == _t and l_ == _lab))
+            if at in reach:
+                continue
+            parts = conjuncts(t.ast) if lab == "T" else disjuncts(t.ast)
+            for c in parts:
+                out.append((expand_aliases(fn, c), lab == "F", t))
+    return out
+
+
+def _limit_guard(fn: Fn, site):
+    """The numeric comparison guarding an emission: ("ok"|"bad"|"unknown", ...)."""
+    cands = []
+    for atom, negated, t in dominating_atoms(fn, site):
+        e = ast.UnaryOp(ast.Not(), atom) if negated else atom
+        nz = normalise(fn, e)
+        if nz is not None:
+            cands.append((atom, negated, nz))
+    if not cands:
+        return "unknown", "no numeric comparison dominates the emission", None
+    judged = []
+    for atom, negated, (M, T, _) in cands:
+        kinds = measure_offsets(fn, M)
+        if kinds is not None:
+            judged.append((atom, negated, M, T, kinds))
+    if not judged:
+        return "unknown", "measure expression(s) " + ", ".join(f"`{text(c[2][0])}`" for c in cands) + " not recognised", None
+    return "judged", "", judged
+
+
+# ---------------------------------------------------------------------------------------- boundary evaluation
+def _expect(problems, what, emitted: bool, want: bool):
+    if emitted != want:
+        problems.append(f"{what}: the diagnostic is {'emitted' if emitted else 'not emitted'}, expected "
+                        f"{'one' if want else 'none'}")
+
+
+def _run_codes(prog, cls, sc, code, tolerate_abort=False):
+    from ..stubrun import RUNTIME_ERRORS, run_rule
+    try:
+        run_rule(prog, cls, sc)
+    except RUNTIME_ERRORS:
+        if not tolerate_abort:
+            raise Unsupported("the rule fails on the stub statement")
+    except Unsupported:
+        if not tolerate_abort or code not in sc.codes():
+            raise
+    return code in sc.codes()
+
+
+def boundary_eval(prog, unit: str, code: str) -> List[str]:
+    """The check's run() interpreted on synthetic statements on both sides of the limit: [problems].  Raises Unsupported."""
+    from ..stubrun import StubContext, line_tokens, tok
+    P: List[str] = []
+    seen_pos = False
+    if (unit, code) == ("CheckLineLen", "LINE_TOO_LONG"):
+        for w in range(76, 88):
+            for toks in ([tok("IDENTIFIER", 1, 1, "x" * w), tok("NEWLINE", 1, w + 1)],
+                         [tok("IDENTIFIER", 1, 1, "x"), tok("TAB", 1, 2), tok("IDENTIFIER", 1, w, "y"), tok("NEWLINE", 1, w + 1)],
+                         [tok("NEWLINE", 1, 1), tok("TAB", 2, 1), tok("IDENTIFIER", 2, 5, "z" * (w - 4)), tok("NEWLINE", 2, w + 1)]):
+                got = _run_codes(prog, unit, StubContext(prog, toks, history=["IsExpressionStatement"]), code)
+                seen_pos |= got
+                _expect(P, f"a line {w} columns wide", got, w > 80)
+    elif (unit, code) == ("CheckCommentLineLen", "LINE_TOO_LONG"):
+        for w in range(76, 88):
+            for idx in (1, 5, 13):
+                L = w - idx + 1
+                got = _run_codes(prog, unit, StubContext(prog, [tok("COMMENT", 1, idx, "/" * L), tok("NEWLINE", 1, idx + L)],
+                                                         history=["IsComment"]), code)
+                seen_pos |= got
+                _expect(P, f"a // comment starting in column {idx} that ends in column {w}", got, w > 80)
+                for where in ("first", "interior", "last", "only"):
+                    short = "s" * 10
+                    if where == "first":
+                        ls = ["/" * L, short, short]
+                    elif where == "interior":
+                        ls = [short, "i" * w, short]
+                    elif where == "last":
+                        ls = [short, short, "l" * w]
+                    else:
+                        ls = ["/" * L]
+                    val = "\n".join(ls)
+                    got = _run_codes(prog, unit, StubContext(prog, [tok("MULT_COMMENT", 1, idx, val), tok("NEWLINE", len(ls), 99)],
+                                                             history=["IsComment"]), code)
+                    seen_pos |= got
+                    _expect(P, f"a block comment starting in column {idx} whose {where} line is {w} columns wide", got, w > 80)
+    elif (unit, code) == ("CheckBrace", "TOO_MANY_LINES"):
+        for body in range(21, 31):
+            sc = StubContext(prog, [tok("RBRACE", body + 2, 1), tok("NEWLINE", body + 2, 2)], history=["IsFuncDeclaration", "IsBlockEnd"],
+                             scope="Function", scope_attrs={"lines": body + 1})
+            got = _run_codes(prog, unit, sc, code)
+            seen_pos |= got
+            _expect(P, f"a function body of {body} lines (scope.lines = {body + 1} at the closing brace)", got, body > 25)
+    elif (unit, code) == ("CheckFunctionsCount", "TOO_MANY_FUNCS"):
+        for n in range(2, 10):
+            sc = StubContext(prog, line_tokens(["INT", "TAB", ("IDENTIFIER", "f"), "LPARENTHESIS", "VOID", "RPARENTHESIS", "NEWLINE"]),
+                             history=["IsEmptyLine", "IsFuncDeclaration"], scope_attrs={"functions": n})
+            got = _run_codes(prog, unit, sc, code)
+            seen_pos |= got
+            _expect(P, f"the {n}th function definition of the file", got, n > 5)
+    elif (unit, code) == ("CheckVariableDeclaration", "TOO_MANY_VARS_FUNC"):
+        for n in range(2, 10):
+            sc = StubContext(prog, line_tokens(["TAB", "INT", "TAB", ("IDENTIFIER", "a"), "SEMI_COLON", "NEWLINE"], line=3),
+                             history=["IsFuncDeclaration", "IsBlockStart", "IsVarDeclaration", "IsVarDeclaration"],
+                             scope="Function", scope_attrs={"vars": n - 1, "vdeclarations_allowed": True})
+            got = _run_codes(prog, unit, sc, code, tolerate_abort=True)
+            seen_pos |= got
+            _expect(P, f"the {n}th variable declaration of a function", got, n > 5)
+    elif (unit, code) == ("CheckFuncDeclaration", "TOO_MANY_ARGS"):
+        for n in range(1, 9):
+            for style in ("plain", "fnptr", "multiline"):
+                ks = ["INT", "TAB", ("IDENTIFIER", "f"), "LPARENTHESIS"]
+                for k in range(n):
+                    if k:
+                        ks += ["COMMA"] + (["NEWLINE", "TAB", "TAB"] if style == "multiline" and k % 2 == 0 else ["SPACE"])
+                    if style == "fnptr" and k == 0:
+                        ks += ["VOID", "SPACE", "LPARENTHESIS", "MULT", ("IDENTIFIER", "cb"), "RPARENTHESIS", "LPARENTHESIS", "INT",
+                               "COMMA", "SPACE", "INT", "COMMA", "SPACE", "INT", "RPARENTHESIS"]
+                    else:
+                        ks += ["INT", "SPACE", ("IDENTIFIER", f"a{k}")]
+                ks += ["RPARENTHESIS", "SEMI_COLON", "NEWLINE"]
+                toks = line_tokens(ks)
+                sc = StubContext(prog, toks, history=["IsEmptyLine", "IsFuncPrototype"], fname_pos=2)
+                got = _run_codes(prog, unit, sc, code)
+                seen_pos |= got
+                _expect(P, f"a prototype with {n} parameters ({style})", got, n > 4)
+    else:
+        raise Unsupported(f"no boundary scenario for {unit}/{code}")
+    if not seen_pos:
+        P.append("the diagnostic is never emitted on the stub statements beyond the limit")
+    return sorted(set(P), key=P.index)
+
+
 def rule_thresholds(run, prog):
-    run.rule("R-3.1", "CMP: the comparison that guards each limit diagnostic, normalised to `measure > T`, has T - c == L "
-             "for every kind of value the measure takes (c = known offset between the measured expression and the Norm's "
-             "quantity); L = 80 columns, 25 lines, 5 functions, 4 parameters, 5 variables", floor=7)
+    run.rule("R-3.1", "CMP: the comparison that guards each limit diagnostic (any test whose outcome dominates the emission in "
+             "the CFG: nested if, guard clause, merged condition; local aliases expanded), normalised to `measure > T`, has "
+             "T - c == L for every kind of value the measure takes (c = known offset between the measured expression and the "
+             "Norm's quantity); L = 80 columns, 25 lines, 5 functions, 4 parameters, 5 variables.  Where the guard is not of a "
+             "recognised form the check's run() is interpreted on synthetic statements on both sides of the limit instead",
+             floor=7)
+    from .c02 import unit_of
     n = 0
     for e in emission_sites(prog):
         if e.code_expr is None or e.fn.mod.rel in ("errors.py",) or (e.fn.cls is not None and e.fn.cls.name == "Context"):
@@ -195,30 +350,41 @@ def rule_thresholds(run, prog):
             run.note(f"{key}: {why_dead} - dead, skipped")
             continue
         n += 1
-        # innermost enclosing If whose test has a numeric comparison
-        found = None
-        cur = e.node
-        for a in ancestors(e.node):
-            if isinstance(a, ast.If) and any(cur is s or _contains(s, cur) for s in a.body):
-                for c in conjuncts(a.test):
-                    nz = normalise(e.fn, c)
-                    if nz is not None:
-                        found = (a, c, nz)
-                        break
-            if found or isinstance(a, (ast.FunctionDef, ast.AsyncFunctionDef)):
-                break
-        if found is None:
-            run.ob("R-3.1", key, False, f"no numeric comparison guards the emission of {code}", e.node)
-            continue
-        ifn, cmp, (M, T, _) = found
-        kinds = measure_offsets(e.fn, M)
-        if kinds is None:
-            raise AnalysisError(f"{key}: measure expression `{text(M)}` not recognised (cannot relate it to the Norm's quantity)")
-        bad = [(d, c) for d, c in kinds if c is None or T - c != L]
-        run.ob("R-3.1", key, not bad,
-               f"{code}: `{text(cmp)}` means measure > {T}; " + "; ".join(
-                   (f"for [{d}] the limit enforced is {T - c}, the Norm says {L}" if c is not None else f"[{d}]") for d, c in bad),
-               cmp, measure=text(M), T=T, kinds=[f"{d} (c={c})" for d, c in kinds])
+        status, why, judged = _limit_guard(e.fn, e.node)
+        if status == "judged":
+            bad_all = []
+            for atom, negated, M, T, kinds in judged:
+                bad = [(d, c) for d, c in kinds if c is None or T - c != L]
+                if bad:
+                    bad_all.append((atom, negated, M, T, kinds, bad))
+            if not bad_all or len(bad_all) == len(judged):
+                atom, negated, M, T, kinds = judged[0][:5] if not bad_all else bad_all[0][:5]
+                bad = bad_all[0][5] if bad_all else []
+                shown = ("not (" + text(atom) + ")") if negated else text(atom)
+                if bad:
+                    # the form looks wrong: confirm on the behaviour (a measure the offset table misreads must not be reported)
+                    try:
+                        if not boundary_eval(prog, unit_of(e.fn), code):
+                            run.note(f"{key}: `{shown}` reads as a limit of {T} on `{text(M)}`, but the check interpreted on "
+                                     f"synthetic statements enforces exactly {L}: accepted")
+                            bad = []
+                    except Unsupported:
+                        pass
+                run.ob("R-3.1", key, not bad,
+                       f"{code}: `{shown}` means measure > {T}; " + "; ".join(
+                           (f"for [{d}] the limit enforced is {T - c}, the Norm says {L}" if c is not None else f"[{d}]") for d, c in bad),
+                       atom if hasattr(atom, "_sa_parent") else e.node, measure=text(M), T=T, kinds=[f"{d} (c={c})" for d, c in kinds])
+                continue
+            why = "several numeric guards dominate the emission and disagree"
+        # not a recognised shape: observe the behaviour
+        unit = unit_of(e.fn)
+        try:
+            problems = boundary_eval(prog, unit, code)
+        except Unsupported as ex:
+            raise AnalysisError(f"{key}: {why}, and the check cannot be interpreted on stub statements either ({ex})")
+        run.ob("R-3.1", key, not problems,
+               f"{code}: interpreted on synthetic statements around the limit {L}: " + "; ".join(problems[:3]), e.node,
+               decided_by="boundary evaluation", syntactic=why)
     run.require(n >= 7, f"only {n} live limit sites found (floor 7)")
 
 
